@@ -40,6 +40,16 @@ extern char *__real_strndup (const char *, size_t);
 extern int __real_posix_memalign (void **, size_t, size_t);
 extern void *__real_aligned_alloc (size_t, size_t);
 
+#if defined(__SANITIZE_ADDRESS__)
+/* thorough tier: under AddressSanitizer freed user blocks are poisoned for the instrumented library code, so a
+   READ after free is reported too (the plain build only sees writes, through the 0xdb pattern) */
+#include <sanitizer/asan_interface.h>
+#define ASAN_ON 1
+#else
+#define ASAN_ON 0
+#define __asan_poison_memory_region(p, n) ((void) 0)
+#endif
+
 #define API_REALLOC __real_realloc
 #define API_FREE __real_free
 #include "c17_api.h"
@@ -198,6 +208,7 @@ static void retire (struct hdr *h) {
   h->freed = 1;
   memset (h + 1, POISON, h->size);
   quarantine_bytes += h->size;
+  __asan_poison_memory_region (h + 1, h->size);
 }
 
 static void *ck_malloc (size_t size, void *ud) {
@@ -259,6 +270,7 @@ static void ck_free (void *ptr, void *ud) {
 
 /* writes into freed blocks: poison must be intact */
 static void check_quarantine (void) {
+  if (ASAN_ON) return; /* the shadow memory does the job */
   for (size_t j = 0; j < blocks_cap; j++) {
     struct hdr *h = blocks[j];
     if (h == NULL || h->freed != 1) continue;
